@@ -581,6 +581,11 @@ def gen_model(rng, fam):
          "verbose": rng.choice([0, 0, 0, 0, 1, 2, 3]), "ctor": rng.random() < 0.5}
     if rng.random() < 0.25:
         c["container"] = rng.choice(["tuple", "ndarray", "range"])
+    elif not stationary and T >= 3 and rng.random() < 0.3:
+        # aliasing: the state function hands back ONE list object at every epoch (S = lambda track, k: CANDIDATES)
+        # while the tables depend on the epoch
+        c["states"] = [list(states[0]) for _ in range(T)]
+        c["same_list_object"] = 1
     return c
 
 
@@ -714,6 +719,8 @@ def run_rnd(case, ctx):
     T = case["T"]
     if T != len(states) or T < 1 or any(len(s) < 1 for s in states) or len(case["obs"]) != T:
         return ood("malformed model")
+    if case.get("same_list_object"):
+        states = [states[0]] * T            # one list object for every epoch
     mdl = model_from_tables(states, case["obs"], case["stationary"], case["P"], case["Q"])
     counts = [len(s) for s in states]
     p, q = mdl.tables(Fraction)
@@ -724,6 +731,8 @@ def run_rnd(case, ctx):
     if case.get("container"):
         mdl.container = case["container"]
         cls.append("candidates_returned_as_" + case["container"])
+    if case.get("same_list_object"):
+        cls.append("one_candidate_list_object_for_every_epoch")
     wide = case["family"] == "wide"
     if wide:
         cls.append("more_than_64_candidates_per_epoch")
@@ -876,7 +885,7 @@ def classify(case, witness):
 # floors for the call-history workloads added in session 3 (a run in which they were silently skipped is inconclusive)
 _floors_base = floors
 _FLOORS_EXTRA = {'classes': {'history_rerun': 500, 'more_than_64_candidates_per_epoch': 12,
-                             'candidates_returned_as_tuple': 100, 'candidates_returned_as_ndarray': 100}}
+                             'candidates_returned_as_tuple': 100, 'one_candidate_list_object_for_every_epoch': 200, 'candidates_returned_as_ndarray': 100}}
 
 
 def floors(tier):
